@@ -14,7 +14,7 @@ func init() {
 	Registry["C06"] = checkC06
 	Registry["C10"] = checkC10
 	Registry["C13"] = checkC13
-	Descriptions["C06"] = "C06-counter (Request.ID is fed, through newRequest/readRequest/ResponseWriter.requestID, by the read loop's induction register phi(0,v+1)+1), " +
+	Descriptions["C06"] = "C06-own-request (the variables the per-request goroutine captures are per-iteration ones, never assigned again by the read loop after the go statement), C06-counter (Request.ID is fed, through newRequest/readRequest/ResponseWriter.requestID, by the read loop's induction register phi(0,v+1)+1), " +
 		"C06-sequential-read (readRequest is called only synchronously from the read loop), C06-async (every synchronous route to a handler from the loop is control-dependent on routeOp==unbind or extendedName==StartTLS; all other requests reach (*Mux).serve only through a go statement), " +
 		"C06-nojoin (the loop body contains no operation that can wait for a handler), C06-conn-async (serveRequests is reached from Run only through go). Decides numbering and absence of wait edges; scheduler progress is not decided."
 	Descriptions["C10"] = "C10-first (both dispatch sites are control-dependent on routeOp != unbind), C10-terminal (from the unbind edge every path leaves serveRequests without readRequest, serve, go or the loop back edge), " +
@@ -90,6 +90,9 @@ func checkC06(c *Ctx) {
 	if newRequest == nil || readRequest == nil || newRW == nil {
 		return
 	}
+	// ---- C06-own-request: "each request is handed to its handler": the dispatched goroutine must see the
+	// request and writer of the iteration that started it
+	c.checkOwnIteration("C06-own-request", m)
 	// ---- C06-counter
 	// (a) newRequest stores its id parameter into Request.ID
 	nID := 0
